@@ -801,6 +801,9 @@ funcexpr(struct func *f, struct expr *e)
 			b[0] = mkblock("logic_right");
 			b[1] = mkblock("logic_join");
 			t = e->u.binary.l->type;
+			/* the phi below must name a block that really branches here */
+			if (f->end->jump.kind)
+				funclabel(f, mkblock("dead"));
 			if (e->op == TLOR) {
 				funcjnz(f, l, t, b[1], b[0]);
 				b[1]->phi.val[0] = mkintconst(1);
@@ -899,6 +902,8 @@ funcexpr(struct func *f, struct expr *e)
 		b[2] = mkblock("cond_join");
 
 		v = funcexpr(f, e->base);
+		if (f->end->jump.kind)
+			funclabel(f, mkblock("dead"));
 		funcjnz(f, v, e->base->type, b[0], b[1]);
 
 		funclabel(f, b[0]);
